@@ -29,10 +29,22 @@ def make_case(rng, c, allow_all_outlier=False):
     if not allow_all_outlier:
         pool = [f for f in pool if f.K > 0]
     k = int(rng.integers(1, min(len(pool), 6) + 1))
+    long_trace = c % 8 == 5
+    if long_trace:
+        # a long trace with more than 256 distinct topologies and counts beyond one byte
+        pool = [f for f in gen.all_forests(4, outliers=bool(c % 2)) if f.K > 0 or allow_all_outlier]
+        if n != 4:
+            n = 4
+            data = gen.make_data(rng, n, D, G, kind="smooth")
+        k = min(len(pool), int(rng.integers(270, 330)))
     forests = [pool[i] for i in rng.permutation(len(pool))[:k]]
+    if long_trace:
+        forests = forests + forests[:3] * 150  # three topologies recorded several hundred times each
     n_chains = int(rng.integers(1, 5))
     order = list(rng.permutation(n_chains))
     lens = [int(rng.integers(1, 41)) if rng.random() < 0.9 else 1 for _ in range(n_chains)]
+    if long_trace:
+        lens = [int(rng.integers(700, 1100)) for _ in range(n_chains)]
     scores = ["real", "synthetic"][c % 2]
     results = tracegen.make_trace(rng, data, samples, n_chains, lens, forests, scores=scores, tie_prob=0.3,
                                   chain_order=[int(x) for x in order])
@@ -54,7 +66,7 @@ def make_case(rng, c, allow_all_outlier=False):
                 results[ch]["trace"].append(e)
     # readers take data / samples / clusters from chain 0: it must exist (it always does in a run)
     return data, samples, results, {"n": n, "D": D, "chains": n_chains, "insertion_order": [int(x) for x in order],
-                                    "lens": lens, "scores": scores, "distinct_forests": k}
+                                    "lens": lens, "scores": scores, "distinct_forests": k, "long": bool(long_trace)}
 
 
 def trace_task(task):
@@ -87,6 +99,10 @@ def trace_task(task):
             summ, total, best = tracegen.reference_summary(results)
             part.count("evaluations")
             part.count("entries", total)
+            if desc.get("long"):
+                part.count("long_traces")
+                part.maxi("most_distinct_topologies_in_a_trace", len(summ))
+                part.maxi("largest_topology_count", max(v["count"] for v in summ.values()))
             part.see("ch%d|k%d|%s|%d" % (desc["chains"], len(summ), desc["scores"], total))
             ties = sum(1 for s in summ.values() if s["max"] == best)
             if ties > 1:
